@@ -30,6 +30,9 @@ type Action struct {
 	Ctl  string `json:"ctl,omitempty"`
 	Op   string `json:"op,omitempty"`
 	Hold int    `json:"hold,omitempty"`
+	// Skip (flapinsync, restartinsync): that many re-synchronisation requests are let through first, so that the
+	// fault falls in the MIDDLE of a re-synchronisation that needs several requests
+	Skip int `json:"skip,omitempty"`
 }
 
 // Describe renders an action.
@@ -43,6 +46,9 @@ func (a Action) Describe() string {
 		return fmt.Sprintf("faults(%s, %v)", a.Target, a.Codes)
 	case "parkat":
 		return fmt.Sprintf("parkat(%s before %s, for %d actions)", a.Ctl, a.Op, a.Hold)
+	}
+	if a.Skip > 0 {
+		return fmt.Sprintf("%s(%s, after %d requests of it)", a.Kind, a.Target, a.Skip)
 	}
 	return a.Kind + "(" + a.Target + ")"
 }
@@ -112,6 +118,7 @@ type Run struct {
 	Budget        int // step budget override (0 = derived from the scenario's length)
 	mu            sync.Mutex
 	armed         map[string]string // target -> armed fault kind
+	armedSkip     map[string]int    // target -> matching requests still to let through
 	fire          *Action           // armed fault whose moment has come (set by the device's goroutine)
 	fireCtl       string            // controller whose request triggered it
 	FaultInSync   bool
@@ -245,6 +252,10 @@ func (r *Run) perform(i int, a Action) error {
 			r.armed = map[string]string{}
 		}
 		r.armed[a.Target] = a.Kind
+		if r.armedSkip == nil {
+			r.armedSkip = map[string]int{}
+		}
+		r.armedSkip[a.Target] = a.Skip
 		r.mu.Unlock()
 	case "faults":
 		cs := make([]codes.Code, len(a.Codes))
@@ -309,7 +320,12 @@ func (r *Run) noteSent(target string, req fakes.DeviceReq) {
 	r.mu.Lock()
 	if k := r.armed[target]; k != "" && r.fire == nil {
 		switch {
+		case strings.HasSuffix(k, "insync") && s.Ctl == "configuration" && r.armedSkip[target] > 0 && req.Code == codes.OK:
+			r.armedSkip[target]--
 		case strings.HasSuffix(k, "insync") && s.Ctl == "configuration":
+			if r.Sc.hasSkip(target) {
+				r.X.Class("fault in the middle of a re-synchronisation of several requests")
+			}
 			delete(r.armed, target)
 			r.fire = &Action{Kind: strings.TrimSuffix(k, "insync"), Target: target}
 			r.fireCtl = "configuration"
@@ -320,6 +336,15 @@ func (r *Run) noteSent(target string, req fakes.DeviceReq) {
 		}
 	}
 	r.mu.Unlock()
+}
+
+func (sc Scenario) hasSkip(target string) bool {
+	for _, a := range sc.Actions {
+		if a.Target == target && a.Skip > 0 {
+			return true
+		}
+	}
+	return false
 }
 
 // monitor runs after every scheduler step.
